@@ -16,6 +16,8 @@
 #include "iwpool.h"
 #include "iwutils.h"
 #include "iwconv.h"
+#include "iwuuid.h"
+#include "iwcsv.h"
 #include <errno.h>
 #include <math.h>
 #include <signal.h>
@@ -138,7 +140,18 @@ static int ini_cb(void *user, const char *section, const char *name, const char 
   printf("|");
   if (value) puthex(value, strlen(value)); else printf("~");
   printf("]");
-  return 1;
+  // the callback refuses (returns 0 => the line number becomes the error) names and values that start with `!`
+  return !((value && value[0] == '!') || (name && name[0] == '!'));
+}
+
+// nodes reachable from n and the deepest level among them (root = level 0)
+static void skel(struct jbl_node *n, int lvl, long *cnt, int *deep) {
+  for ( ; n; n = n->next) {
+    ++*cnt;
+    if (lvl > *deep) *deep = lvl;
+    if ((n->type == JBV_OBJECT || n->type == JBV_ARRAY) && n->child) skel(n->child, lvl + 1, cnt, deep);
+    if (lvl == 0) break;
+  }
 }
 
 struct rmap { int n; char **k; char **v; };
@@ -380,6 +393,65 @@ int main(void) {
       int rc = iwini_parse_string((char*) b, ini_cb, 0);
       printf(" rc=%d\n", rc);
       free(b);
+    } else if ((!strcmp(cmd, "jsk") || !strcmp(cmd, "jssk")) && na == 1) {   // the parser's skeleton: rc class, end, nodes, depth
+      uint8_t *b; unhex(a[0], &b);
+      struct iwpool *pool = iwpool_create(0);
+      JCTX ctx = { .pool = pool, .buf = (char*) b, .js = cmd[2] == 's' };
+      errno = pre;
+      poison_stack(g_fill);
+      _jbl_skip_bom(&ctx);
+      const char *e = _jbl_parse_value(&ctx, 0, 0, 0, 0, ctx.buf);
+      long cnt = 0; int deep = -1;
+      if (ctx.root) skel(ctx.root, 0, &cnt, &deep);
+      if (ctx.rc) printf("%s", ctx.rc == JBL_ERROR_PARSE_JSON ? "Ejson" : ctx.rc == JBL_ERROR_MAX_NESTING_LEVEL_EXCEEDED ? "Enest"
+                               : ctx.rc == JBL_ERROR_PARSE_INVALID_CODEPOINT ? "Ecp" : ctx.rc == JBL_ERROR_PARSE_UNQUOTED_STRING ? "Eunq" : "E?");
+      else if (e >= (char*) b && e <= (char*) b + strlen((char*) b)) printf("%d", (int) (e - (char*) b));
+      else printf("W");
+      printf(" %ld %d\n", cnt, deep);
+      iwpool_destroy(pool); free(b);
+    } else if (!strcmp(cmd, "sde") && na == 1) {        // iwstrtod: where `end` points to
+      uint8_t *b; unhex(a[0], &b);
+      char *end = (char*) fillptr();
+      errno = pre;
+      poison_stack(g_fill);
+      (void) iwstrtod((char*) b, &end);
+      if (end >= (char*) b && end <= (char*) b + strlen((char*) b)) printf("%d\n", (int) (end - (char*) b));
+      else printf("%s\n", end == (char*) fillptr() ? "S" : "W");
+      free(b);
+    } else if (!strcmp(cmd, "wstrtoll") && na == 1) {   // iw_strtoll(v, 10, &rc): a checked wrapper that consults errno
+      uint8_t *b; unhex(a[0], &b);
+      iwrc rc = 0;
+      errno = pre;
+      poison_stack(g_fill);
+      long long v = iw_strtoll((char*) b, 10, &rc);
+      if (rc) printf("E\n"); else printf("%lld\n", v);
+      free(b);
+    } else if (!strcmp(cmd, "uuid") && na == 1) {
+      uint8_t *b; unhex(a[0], &b);
+      errno = pre;
+      poison_stack(g_fill);
+      printf("%d\n", (int) iwu_uuid_valid((char*) b));
+      free(b);
+    } else if (!strcmp(cmd, "csv") && na >= 1) {        // <len of the line buffer> <column>...   columns are length delimited
+      size_t len = strtoul(a[0], 0, 10);
+      char *lb = zalloc(len);
+      memset(lb, g_fill, len);
+      struct iwcsv *w = 0;
+      errno = pre;
+      poison_stack(g_fill);
+      iwrc rc = iwcsv_wrap_line_buffer(lb, len, &w);
+      if (rc || !w) printf("inv\n");
+      else {
+        for (int i = 1; i < na; ++i) {
+          uint8_t *c; size_t l = unhex(a[i], &c); char *e = exact(c, l);
+          printf("%d ", (int) iwcsv_column_add(w, e, (int) l));
+          zfree(e, l); free(c);
+        }
+        int ol = -1;
+        const char *r = iwcsv_line_flush(w, &ol);
+        if (!r) printf("null\n"); else { puthex(r, ol); printf("\n"); }
+      }
+      zfree(lb, len);
     } else if (!strcmp(cmd, "re") && na == 2) {        // 16 slots, as most callers in the wild
       uint8_t *p, *t; unhex(a[0], &p); unhex(a[1], &t);
       errno = pre;
